@@ -314,3 +314,9 @@ func withCore(r check.Rule) check.Rule {
 	r.ExtraScope = append(r.ExtraScope, ro)
 	return r
 }
+
+// withScope arms a shared rule for additional packages inside one property.
+func withScope(r check.Rule, pkgs ...string) check.Rule {
+	r.ExtraScope = append(append([]string{}, r.ExtraScope...), pkgs...)
+	return r
+}
